@@ -514,7 +514,7 @@ func (r *runner) playIn(h *History, po playOpts, root string) *played {
 	dirty := map[string]bool{}
 	markSources := func() {
 		for _, t := range p.Tgts {
-			for _, s := range t.Srcs {
+			for _, s := range p.srcsOf(t) {
 				if !p.isGenerated(s) {
 					dirty[s] = true
 				}
@@ -574,9 +574,12 @@ func (r *runner) playIn(h *History, po playOpts, root string) *played {
 			}
 			switch e.Kind {
 			case "content", "create", "delete", "rename", "samecontent", "touch":
+				if p.hasGlob() && e.Kind != "samecontent" && e.Kind != "touch" {
+					defsDirty = true // what a glob matches, and with it the declared sources, may have changed
+				}
 				// the source (or the source directory above it) has to be re-read by the model
 				for _, t := range p.Tgts {
-					for _, s := range t.Srcs {
+					for _, s := range p.srcsOf(t) {
 						if s == e.Path || strings.HasPrefix(e.Path, s+"/") || (e.To != "" && strings.HasPrefix(e.To, s+"/")) {
 							dirty[s] = true
 						}
@@ -719,7 +722,7 @@ func (p *Proj) closure(label string) map[string]bool {
 		for _, d := range t.Deps {
 			visit(d)
 		}
-		for _, s := range t.Srcs {
+		for _, s := range p.srcsOf(t) {
 			for _, g := range p.Tgts {
 				if !g.Removed && contains(g.Gens, s) {
 					visit(g.Label())
